@@ -156,7 +156,11 @@ def main():
             t = "" if "tests_pass" not in res else f" tests={'pass' if res['tests_pass'] else 'FAIL'}"
             for p, c in res["checks"].items():
                 verdict = "caught" if c["exit"] == 1 else ("HARNESS-ERROR" if c["exit"] == 2 else "MISSED")
-                if c["exit"] != 1:
+                if m.get("expect") == "quiet":
+                    verdict = "quiet-ok" if c["exit"] == 0 else "FALSE-ALARM"
+                    if c["exit"] != 0:
+                        missed += 1
+                elif c["exit"] != 1:
                     missed += 1
                 print(f"{m['id']:40s} {p} {verdict:8s} {c['wall']:6.1f}s{t} "
                       f"{(c['lines'][0] if c['lines'] else '')[:110]}", flush=True)
